@@ -76,6 +76,8 @@ def histories(draw, kind, tier):
         st.tuples(st.just("info"), st.integers(0, 1)),
         st.tuples(st.just("clear"), st.integers(0, 1)),
         st.tuples(st.just("discard"), st.integers(0, 1), pick),
+        # (method kind) instance 1 is replaced by a shallow copy of instance 0 - a new object with its own identity
+        st.tuples(st.just("copy"), st.just(0)),
     )
     ops = draw(st.lists(op, min_size=6, max_size=40 if tier == "quick" else 60))
     return {"kind": kind, "maxsize": maxsize, "typed": typed,
@@ -235,7 +237,19 @@ def build_targets(case):
         ai, si = [A(), A()], [S(), S()]
         for k in (0, 1):
             ai[k].tag = si[k].tag = f"inst{k}"
-        return [ai[0].m, ai[1].m], [si[0].m, si[1].m], alog, slog, norm, 1
+
+        def recopy():
+            import copy
+
+            for pair in (ai, si):
+                pair[1] = copy.copy(pair[0])
+                pair[1].tag = "inst1"
+            return ai[1].m, si[1].m
+
+        holder = [ai[0].m, ai[1].m]
+        holder_s = [si[0].m, si[1].m]
+        holder.append(recopy)
+        return holder, holder_s, alog, slog, norm, 1
     if kind == "classmethod":
         class A:
             @classmethod
@@ -274,8 +288,10 @@ def check(case):
     stats = {"evicted_after_hit": False, "equal_not_identical": False, "discard_hit": False}
     seen_keys = {}
 
+    inst_ids = [0, 1]
+
     def model_call(inst, args, kwargs):
-        margs = ((("self", inst if not case.get("eq_instances") else 0),) if case["kind"] == "method" else
+        margs = ((("self", inst_ids[inst] if not case.get("eq_instances") else 0),) if case["kind"] == "method" else
                  (("cls",),) if case["kind"] == "classmethod" else ()) + args
         try:
             key, hit = model.lookup(margs, kwargs)
@@ -298,6 +314,13 @@ def check(case):
         nonlocal discarded
         for step, op in enumerate(case["ops"]):
             name, inst = op[0], op[1]
+            if name == "copy":
+                if case["kind"] == "method" and not case.get("eq_instances"):
+                    afns[1], sfns[1] = afns[2]()
+                    # the copy is a NEW instance: nothing is cached for it yet (entries of the instance it replaces
+                    # stay in the cache, unreachable, until they are evicted)
+                    inst_ids[1] = max(inst_ids) + 1
+                continue
             afn, sfn = afns[inst], sfns[inst]
             if name in ("call", "discard"):
                 args = tuple(_val(VALUES[i]) for i in op[2][0])
@@ -340,7 +363,7 @@ def check(case):
                     sfn.cache_clear()
             elif name == "discard":
                 try:
-                    margs = ((("self", inst if not case.get("eq_instances") else 0),) if case["kind"] == "method" else
+                    margs = ((("self", inst_ids[inst] if not case.get("eq_instances") else 0),) if case["kind"] == "method" else
                              (("cls",),) if case["kind"] == "classmethod" else ()) + args
                     before = len(model.cache)
                     try:
@@ -364,9 +387,11 @@ def check(case):
                 return ("cache_info-differs", f"step {step} {op}: async={info} reference={model.info()}")
             if not discarded and tuple(sfn.cache_info()) != model.info():
                 raise RuntimeError(f"LRU model disagrees with functools info at step {step}")
-            params = dict(afn.cache_parameters())
+            handed_out = afn.cache_parameters()
+            params = dict(handed_out)
             if params != {"maxsize": norm, "typed": case["typed"]}:
                 return ("cache_parameters-differ", f"{params}")
+            handed_out["maxsize"] = "changed by the caller"  # the caller's copy: functools builds a new dict per call
             if not discarded and dict(sfn.cache_parameters()) != params:
                 return ("cache_parameters-differ", f"{params} vs functools {sfn.cache_parameters()}")
         return None
